@@ -401,4 +401,22 @@ theorem C14_tracked_covers (cur : St) (seq : List St) (hc : cur.WF N) (hs : ∀ 
     · exact Nat.le_trans w3 i2
     · exact i3 x hx
 
+/-! ### the cause reaches the bootstrapper whatever happens to the final notification (round 16) -/
+
+/-- **C14, the end is for the right reason even when the last message is lost**: with the order of `Agent_0.finalize` as
+    the translator reads it from the source (`Gen.finalizeWritesCauseFirst`: killme.signal is written before the final
+    notification and the tear-down), the state the bootstrapper reports is the one the cause calls for - for every cause,
+    whether or not the final notification fails under the closing session; so `C14_done`, `C14_canceled` and
+    `C14_failed` above hold for such runs too -/
+theorem C14_cause_survives_failed_push (c : Cause) (pushFails : Bool) :
+    bootstrap (signalAfterFinalize Gen.finalizeWritesCauseFirst pushFails c) = finalState c := by
+  have e : Gen.finalizeWritesCauseFirst = true := by decide
+  rw [e]; rfl
+
+/-- the order matters: written after the push, a pilot that ran its time and loses its final notification is
+    reported FAILED -/
+theorem C14_cause_survives_failed_push_witness :
+    bootstrap (signalAfterFinalize false true .timeout) = .failed ∧ finalState .timeout = .done
+    ∧ bootstrap (signalAfterFinalize true true .timeout) = .done := by decide
+
 end RPVerif.C14
